@@ -52,8 +52,67 @@ grab("src_VERSION", "src/raw/mod.rs", r"pub const VERSION: u64 = " + NUM + ";")
 grab("src_EMPTY_ADDRESS", "src/raw/mod.rs", r"const EMPTY_ADDRESS: CompiledAddr = " + NUM + ";")
 grab("src_NONE_ADDRESS", "src/raw/mod.rs", r"const NONE_ADDRESS: CompiledAddr = " + NUM + ";")
 grab("src_TRANS_INDEX_THRESHOLD", "src/raw/node.rs", r"const TRANS_INDEX_THRESHOLD: usize = " + NUM + ";")
-grab("src_registry_rows", "src/raw/build.rs", r"Registry::new\(\s*" + NUM + r"\s*,\s*" + NUM + r"\s*\)", group=1)
-grab("src_registry_cols", "src/raw/build.rs", r"Registry::new\(\s*" + NUM + r"\s*,\s*" + NUM + r"\s*\)", group=2)
+
+
+def registry_geometry():
+    """The node-cache geometry of builders made by the public constructors: the two arguments of the
+    `Registry::new(rows, cols)` that `Builder::new_type` evaluates - written there directly, or behind
+    `Registry::default()` / named constants (integer literals, `<<`, `*`, `+`, `-`, parentheses, names of
+    `const` items of build.rs / registry.rs). Anything else: not located (pinned value + evidence note)."""
+    try:
+        b, r = read("src/raw/build.rs"), read("src/raw/registry.rs")
+    except OSError:
+        return None
+    body = re.search(r"fn new_type\b.*?\n    \}\n", b, re.S)
+    if not body:
+        return None
+    m = re.search(r"registry:\s*([^\n]*?),\s*\n", body.group(0))
+    if not m:
+        return None
+    expr = m.group(1).strip()
+    consts = {}
+    for txt in (b, r):
+        for cm in re.finditer(r"const\s+([A-Z_][A-Z0-9_]*)\s*:\s*(?:usize|u64|u32)\s*=\s*([^;]+);", txt):
+            consts.setdefault(cm.group(1), cm.group(2).strip())
+
+    def ev(e, depth=0):
+        e = e.strip()
+        if depth > 8 or not re.fullmatch(r"[0-9A-Za-z_ \t()<>*+\-]+", e):
+            raise ValueError(e)
+        def name(mm):
+            w = mm.group(0)
+            if re.fullmatch(r"(?:0x[0-9a-fA-F_]+|0b[01_]+|[0-9][0-9_]*)(?:u8|u16|u32|u64|usize)?", w):
+                return str(num(w))
+            if w in consts:
+                return "(%d)" % ev(consts[w], depth + 1)
+            raise ValueError(w)
+        py = re.sub(r"[0-9A-Za-z_]+", name, e)
+        if "**" in py or "//" in py:
+            raise ValueError(e)
+        return int(eval(py, {"__builtins__": {}}, {}))
+
+    call = re.fullmatch(r"Registry::new\((.*)\)", expr, re.S)
+    if not call and re.fullmatch(r"Registry::default\(\)|Default::default\(\)", expr):
+        d = re.search(r"impl\s+Default\s+for\s+Registry\s*\{.*?fn\s+default\(\)\s*->\s*(?:Registry|Self)\s*\{\s*(?:Registry|Self)::new\((.*?)\)\s*\}", r, re.S)
+        call = d
+    if not call:
+        return None
+    args = [a for a in call.group(1).split(",") if a.strip()]
+    if len(args) != 2:
+        return None
+    try:
+        return ev(args[0]), ev(args[1])
+    except (ValueError, SyntaxError, TypeError, ZeroDivisionError):
+        return None
+
+
+_geo = registry_geometry()
+if _geo:
+    items.append(("src_registry_rows", _geo[0]))
+    items.append(("src_registry_cols", _geo[1]))
+else:
+    missing.append("src_registry_rows (src/raw/build.rs)")
+    missing.append("src_registry_cols (src/raw/build.rs)")
 grab("src_CASTAGNOLI_POLY", "build.rs", r"const CASTAGNOLI_POLY: u32 = " + NUM + ";")
 grab("src_mask_shr", "src/raw/crc32.rs", r"sum\.wrapping_shr\(" + NUM + r"\)")
 grab("src_mask_shl", "src/raw/crc32.rs", r"sum\.wrapping_shl\(" + NUM + r"\)")
